@@ -102,6 +102,17 @@ func (s *Solver) Close() {
 
 // readResp reads one s-expression or atom response after an (echo) marker protocol.
 func (s *Solver) sync() (string, error) {
+	// watchdog: a solver that ignores its own time limit is killed (the query counts as unknown)
+	timer := time.AfterFunc(time.Duration(s.timeout+15000)*time.Millisecond, func() {
+		if s.cmd != nil && s.cmd.Process != nil {
+			s.cmd.Process.Kill()
+		}
+	})
+	defer timer.Stop()
+	return s.sync0()
+}
+
+func (s *Solver) sync0() (string, error) {
 	// we send (echo "<<END>>") after each query and read until that line
 	var sb strings.Builder
 	for {
@@ -164,6 +175,9 @@ func (s *Solver) Check(extra string, vars []string) (CheckResult, map[string]str
 	r := strings.TrimSpace(resp)
 	if useTactic && err == nil && r != "sat" && r != "unsat" {
 		// the tactic does not apply to this goal (non-BV sorts) or gave up: plain check-sat
+		if slowLog {
+			fmt.Fprintf(os.Stderr, "  tactic fallback: %.200s\n", r)
+		}
 		if strings.Contains(r, "(error") {
 			s.tacticOff = true // stays off for this path scope
 		}
